@@ -17,7 +17,7 @@ from ..symreal.core import S, symarr, vjp, new_session, evalarr
 from ..symreal.discharge import prove_equal
 from ..symreal.pool import run_catalogue
 
-ALPHABET = ["B0", "B1", "B2", "B3", "B4", "B5", "B6", "B7", "B8", "REG_d", "REFUSED_last", "BW_last", "BW_prev", "BW_int", "BW_leaf_a", "BWG_last", "BWR_last", "BWR_int", "RET_int", "RET_last", "Z_a", "Z_mod", "Z_opt"]
+ALPHABET = ["B0", "B1", "B2", "B3", "B4", "B5", "B6", "B7", "B8", "REG_d", "REFUSED_last", "BW_last", "BW_prev", "BW_int", "BW_leaf_a", "BWG_last", "BWR_last", "BWR_int", "RET_int", "RET_last", "AUG_c", "Z_a", "Z_mod", "Z_opt"]
 DESCR = {
     "B0": "r = a * b", "B1": "m = a + b; r = m * a", "B2": "r = sum(a * a)", "B3": "r = <previous result> * b  (reuse of an earlier result)", "B4": "m = exp(b); r = m * c", "B5": "u = unbind(a); r = u[0] * b + u[1] + a   (multi-output op whose operand is also used directly)",
     "B7": "r = a * d   (d: a parameter that is registered in a nested module only by event REG_d)", "REG_d": "module.inner.pd = d   (registration after the module may already have been queried)",
@@ -26,7 +26,7 @@ DESCR = {
     "B6": "r = cross_entropy(stack([a, b]), labels [0, 1])   (a fused loss whose backward re-uses values of its forward)",
     "BW_last": "backward(last result, fresh g)", "BW_prev": "backward(previous result, fresh g)", "BW_int": "backward(last interior node m, fresh g)",
     "BW_leaf_a": "a.backward(fresh g)", "BWG_last": "<last result>.backward(<previous result>.grad)  (the gradient an earlier sweep left on a tensor, passed on as it is)", "BWR_last": "with retain_grads(): backward(last result)", "BWR_int": "with retain_grads(): backward(last interior)",
-    "RET_int": "m.retain_grad()", "RET_last": "<last result>.retain_grad()  (a tensor that is later used as a root)", "Z_a": "a.zero_()", "Z_mod": "Module.zero_grad()", "Z_opt": "Optimizer.zero_grad()",
+    "RET_int": "m.retain_grad()", "RET_last": "<last result>.retain_grad()  (a tensor that is later used as a root)", "AUG_c": "c += 1.0  (augmented assignment on the constant operand; earlier graphs captured the old value)", "Z_a": "a.zero_()", "Z_mod": "Module.zero_grad()", "Z_opt": "Optimizer.zero_grad()",
 }
 
 
@@ -144,6 +144,10 @@ class World:
             g = self.fresh_g(t.shape)
             with self.tmod.retain_grads():
                 t.backward(g)
+        elif ev == "AUG_c":
+            c_ = self.c
+            c_ += 1.0
+            self.c = c_
         elif ev == "RET_int":
             self.interiors[-1].retain_grad()
         elif ev == "RET_last":
@@ -484,6 +488,9 @@ def histories(tier, seed):
             hs.append((b,) + mid + ("B3", "BWG_last"))
             hs.append((b,) + mid + ("B3", "BWG_last", "BW_last"))
         hs.append((b, "RET_last", "B3", "BW_last", "BWG_last"))
+    # augmented assignment on the constant operand between building a graph and differentiating it
+    for h in (("B4", "AUG_c", "BW_last"), ("B4", "BW_last", "AUG_c", "BW_last"), ("B4", "AUG_c", "B4", "BW_prev", "BW_last"), ("B0", "B3", "AUG_c", "BW_last"), ("B4", "AUG_c", "AUG_c", "BWR_last", "BW_int")):
+        hs.append(h)
     # late registration: the module is queried (zero_grad) before and after a parameter is attached to a nested module
     for pre in (("Z_mod",), ("B7", "BW_last", "Z_mod"), ()):
         for post in (("B7", "BW_last", "Z_mod", "B7", "BW_last"), ("B7", "BW_last", "Z_mod"), ("B7", "BW_last", "Z_opt", "BW_last", "Z_mod")):
